@@ -776,6 +776,27 @@ protected:
                 {
                     outputNewline();
                 }
+                else if (XalanUnicode::charCR == theChar ||
+                         (XMLVersion == XML_VERSION_1_1 &&
+                          (XalanUnicode::charNEL == theChar ||
+                           XalanUnicode::charLSEP == theChar)))
+                {
+                    // A parser normalizes these characters to a line
+                    // feed when they appear literally, so close the
+                    // CDATA section and write a character reference.
+                    // The section is re-opened by the next character
+                    // that goes into it.
+                    if (outsideCDATA == false)
+                    {
+                        m_writer.write(
+                            m_constants.s_cdataCloseString,
+                            m_constants.s_cdataCloseStringLength);
+
+                        outsideCDATA = true;
+                    }
+
+                    writeNumericCharacterReference(theChar);
+                }
                 else if(m_charPredicate.isCharRefForbidden(theChar))
                 {
                      throwInvalidXMLCharacterException(
